@@ -148,7 +148,7 @@ func (g *G) stmt(declsAllowed bool) []*Node {
 	g.depth++
 	defer func() { g.depth-- }()
 	deep := g.depth > 4
-	choices := []string{"log", "log", "log", "log", "var", "var", "assign", "assign", "exprcall", "exprcall", "logcall", "logcall", "if", "upd"}
+	choices := []string{"log", "log", "log", "log", "var", "var", "assign", "assign", "exprcall", "exprcall", "logcall", "logcall", "if", "upd", "bareref"}
 	if !deep {
 		choices = append(choices, "for", "while", "dowhile", "switch", "switch", "try", "try", "labelblock", "labelblock", "forin", "trythrow", "closure-loop")
 		if !g.NoWith {
@@ -186,6 +186,17 @@ func (g *G) stmtOf(c string, declsAllowed bool) []*Node {
 		init := g.expr(k, 2)
 		g.declare(name, k)
 		return []*Node{N("var", NS("decl", name, init))}
+	case "bareref":
+		// an expression statement that is nothing but a reference: 12.4 applies GetValue wherever the statement
+		// stands (loop body, if, with, labelled block) — an accessor runs, an unresolvable name throws
+		switch g.n(0, 3, "barerefform") {
+		case 0:
+			return []*Node{ExprStmt(Id(pick(g, []string{"zz", "undeclared"}, "barename")))}
+		case 1:
+			return []*Node{ExprStmt(Dot(g.objRef(), pick(g, []string{"r", "g", "p"}, "bareprop")))}
+		default:
+			return []*Node{ExprStmt(Dot(N("obj", NS("getter", "v", Block(ExprStmt(Call(Id("log"), Str("bare-getter"))), N("return", Num(1))))), "v"))}
+		}
 	case "assign":
 		return []*Node{ExprStmt(g.assignExpr())}
 	case "upd":
